@@ -41,7 +41,7 @@ import (
 
 // ---- DB interposer ------------------------------------------------------------------------
 
-type raceCtl struct {
+type awRaceCtl struct {
 	mu      sync.Mutex
 	armed   bool
 	need    int
@@ -50,20 +50,20 @@ type raceCtl struct {
 	forced  bool // both checks were seen before either insert
 }
 
-func (c *raceCtl) arm(n int) {
+func (c *awRaceCtl) arm(n int) {
 	c.mu.Lock()
 	defer c.mu.Unlock()
 	c.armed, c.need, c.arrived, c.gate, c.forced = true, n, 0, make(chan struct{}), false
 }
 
-func (c *raceCtl) disarm() bool {
+func (c *awRaceCtl) disarm() bool {
 	c.mu.Lock()
 	defer c.mu.Unlock()
 	c.armed = false
 	return c.forced
 }
 
-func (c *raceCtl) afterCheck() {
+func (c *awRaceCtl) afterCheck() {
 	c.mu.Lock()
 	if !c.armed {
 		c.mu.Unlock()
@@ -84,40 +84,40 @@ func (c *raceCtl) afterCheck() {
 	}
 }
 
-type raceDB struct {
+type awRaceDB struct {
 	inner db.ClientInterface
-	ctl   *raceCtl
+	ctl   *awRaceCtl
 }
 
-func (d *raceDB) New(path string, userID string) (db.Client, bool, error) {
+func (d *awRaceDB) New(path string, userID string) (db.Client, bool, error) {
 	c, isNew, err := d.inner.New(path, userID)
 	if err != nil {
 		return nil, isNew, err
 	}
-	return &raceClient{Client: c, ctl: d.ctl}, isNew, nil
+	return &awRaceClient{Client: c, ctl: d.ctl}, isNew, nil
 }
 
-func (d *raceDB) Delete(path string, userID string) error { return d.inner.Delete(path, userID) }
+func (d *awRaceDB) Delete(path string, userID string) error { return d.inner.Delete(path, userID) }
 
-type raceClient struct {
+type awRaceClient struct {
 	db.Client
-	ctl *raceCtl
+	ctl *awRaceCtl
 }
 
-type roSpy struct {
+type awRoSpy struct {
 	db.ReadOnly
 	saw *bool
 }
 
-func (r *roSpy) GetMailboxMessageCountAndUID(ctx context.Context, id imap.InternalMailboxID) (int, imap.UID, error) {
+func (r *awRoSpy) GetMailboxMessageCountAndUID(ctx context.Context, id imap.InternalMailboxID) (int, imap.UID, error) {
 	*r.saw = true
 	return r.ReadOnly.GetMailboxMessageCountAndUID(ctx, id)
 }
 
-func (c *raceClient) Read(ctx context.Context, op func(context.Context, db.ReadOnly) error) error {
+func (c *awRaceClient) Read(ctx context.Context, op func(context.Context, db.ReadOnly) error) error {
 	saw := false
 	err := c.Client.Read(ctx, func(ctx context.Context, ro db.ReadOnly) error {
-		return op(ctx, &roSpy{ReadOnly: ro, saw: &saw})
+		return op(ctx, &awRoSpy{ReadOnly: ro, saw: &saw})
 	})
 	if saw {
 		// the read transaction with the limit checks of AppendRegular is over; its write transaction comes next
@@ -140,7 +140,7 @@ type limMB struct {
 
 type limRunner struct {
 	sys     *Sys
-	ctl     *raceCtl
+	ctl     *awRaceCtl
 	s       [2]*Client
 	o       *Client
 	lim     [3]int
@@ -155,9 +155,9 @@ type limRunner struct {
 }
 
 func newLimRunner(lim [3]int) (*limRunner, error) {
-	ctl := &raceCtl{}
+	ctl := &awRaceCtl{}
 	l := limits.NewIMAPLimits(uint32(lim[0]), uint32(lim[1]), imap.UID(lim[2]), imap.UID(4294967295))
-	sys, err := NewSys(SysOpts{Limits: &l, DB: &raceDB{inner: verifhooks.NewSQLiteDB(), ctl: ctl}})
+	sys, err := NewSys(SysOpts{Limits: &l, DB: &awRaceDB{inner: verifhooks.NewSQLiteDB(), ctl: ctl}})
 	if err != nil {
 		return nil, err
 	}
@@ -197,18 +197,21 @@ func (r *limRunner) close() {
 	r.sys.Close(true)
 }
 
-func quoteMB(name string) string { return `"` + name + `"` }
+func awQuoteMB(name string) string { return `"` + name + `"` }
 
-var limReUIDNext = regexpMust(`UIDNEXT (\d+)`)
+var limReUIDNext = awRegexpMust(`UIDNEXT (\d+)`)
 
 func (r *limRunner) observe() ([]limMB, error) {
+	if err := awSessionsQuiesce(r.sys); err != nil {
+		return nil, err
+	}
 	rep := r.o.Cmd(`LIST "" "*"`)
 	if rep.Status != "OK" {
 		return nil, fmt.Errorf("LIST: %s %v", rep.Tagged, rep.Err)
 	}
 	names := map[string]bool{limRecovery: true}
 	for _, u := range rep.Untagged {
-		atts, name, ok := parseListLine(u)
+		atts, name, ok := awParseListLine(u)
 		if !ok {
 			continue
 		}
@@ -219,13 +222,13 @@ func (r *limRunner) observe() ([]limMB, error) {
 	}
 	var out []limMB
 	for name := range names {
-		st := r.o.Cmd("STATUS " + quoteMB(name) + " (MESSAGES UIDNEXT)")
+		st := r.o.Cmd("STATUS " + awQuoteMB(name) + " (MESSAGES UIDNEXT)")
 		if st.Status != "OK" {
 			return nil, fmt.Errorf("STATUS %s: %s %v", name, st.Tagged, st.Err)
 		}
 		mb := limMB{name: strings.ReplaceAll(name, " ", "_"), content: "-"}
 		for _, u := range st.Untagged {
-			if m := reStatusN.FindStringSubmatch(u); m != nil {
+			if m := awReStatusN.FindStringSubmatch(u); m != nil {
 				mb.count, _ = strconv.Atoi(m[1])
 			}
 			if m := limReUIDNext.FindStringSubmatch(u); m != nil {
@@ -233,7 +236,7 @@ func (r *limRunner) observe() ([]limMB, error) {
 			}
 		}
 		if mb.count > 0 {
-			if ex := r.o.Cmd("EXAMINE " + quoteMB(name)); ex.Status != "OK" {
+			if ex := r.o.Cmd("EXAMINE " + awQuoteMB(name)); ex.Status != "OK" {
 				return nil, fmt.Errorf("EXAMINE %s: %s %v", name, ex.Tagged, ex.Err)
 			}
 			f := r.o.Cmd("FETCH 1:* (UID RFC822.SIZE)")
@@ -248,7 +251,7 @@ func (r *limRunner) observe() ([]limMB, error) {
 					if x := reUID.FindStringSubmatch(m[2]); x != nil {
 						it[0], _ = strconv.Atoi(x[1])
 					}
-					if x := reSize.FindStringSubmatch(m[2]); x != nil {
+					if x := awReSize.FindStringSubmatch(m[2]); x != nil {
 						it[1], _ = strconv.Atoi(x[1])
 					}
 					items = append(items, it)
@@ -269,7 +272,7 @@ func (r *limRunner) observe() ([]limMB, error) {
 	return out, nil
 }
 
-func showWorld(w []limMB) string {
+func awShowWorld(w []limMB) string {
 	if len(w) == 0 {
 		return "-"
 	}
@@ -286,7 +289,7 @@ func (r *limRunner) message() []byte {
 }
 
 func (r *limRunner) judgeLine(step, op string, before []limMB, status string, after []limMB) {
-	r.lines = append(r.lines, fmt.Sprintf("judge-c17-wire %d %d %d %s | %s => %s | %s", r.lim[0], r.lim[1], r.lim[2], op, showWorld(before), status, showWorld(after)))
+	r.lines = append(r.lines, fmt.Sprintf("judge-c17-wire %d %d %d %s | %s => %s | %s", r.lim[0], r.lim[1], r.lim[2], op, awShowWorld(before), status, awShowWorld(after)))
 	r.steps = append(r.steps, step)
 }
 
@@ -328,8 +331,8 @@ func (r *limRunner) exec(step string) error {
 		return r.s[i], nil
 	}
 	st := func(rep Reply) string {
-		r.tagged = append(r.tagged, step+" -> "+canonTagged(rep))
-		return wireStatus(rep)
+		r.tagged = append(r.tagged, step+" -> "+awCanonTagged(rep))
+		return awWireStatus(rep)
 	}
 	connector := false
 	switch {
@@ -365,7 +368,7 @@ func (r *limRunner) exec(step string) error {
 			wg.Add(1)
 			go func(i int) {
 				defer wg.Done()
-				reps[i] = r.s[i].Append(quoteMB(f[1]), "", lits[i])
+				reps[i] = r.s[i].Append(awQuoteMB(f[1]), "", lits[i])
 			}(i)
 		}
 		wg.Wait()
@@ -380,7 +383,7 @@ func (r *limRunner) exec(step string) error {
 			}
 		}
 		// which session wins which UID is up to the scheduler: order the two replies by text
-		if canonTagged(reps[1]) < canonTagged(reps[0]) {
+		if awCanonTagged(reps[1]) < awCanonTagged(reps[0]) {
 			reps[0], reps[1] = reps[1], reps[0]
 		}
 		op, status = "race "+f[1], st(reps[0])+","+st(reps[1])
@@ -389,7 +392,7 @@ func (r *limRunner) exec(step string) error {
 		if err != nil {
 			return err
 		}
-		rep := c.Append(quoteMB(f[2]), "", r.message())
+		rep := c.Append(awQuoteMB(f[2]), "", r.message())
 		if rep.Err != nil {
 			return rep.Err
 		}
@@ -399,10 +402,10 @@ func (r *limRunner) exec(step string) error {
 		if err != nil {
 			return err
 		}
-		if rep := c.Cmd("SELECT " + quoteMB(f[2])); rep.Status != "OK" {
+		if rep := c.Cmd("SELECT " + awQuoteMB(f[2])); rep.Status != "OK" {
 			return fmt.Errorf("SELECT %s: %s %v", f[2], rep.Tagged, rep.Err)
 		}
-		rep := c.Cmd(fmt.Sprintf("%s 1:%s %s", f[1], f[3], quoteMB(f[4])))
+		rep := c.Cmd(fmt.Sprintf("%s 1:%s %s", f[1], f[3], awQuoteMB(f[4])))
 		_ = c.Cmd("UNSELECT")
 		if rep.Err != nil {
 			return rep.Err
@@ -413,7 +416,7 @@ func (r *limRunner) exec(step string) error {
 		if err != nil {
 			return err
 		}
-		rep := c.Cmd("CREATE " + quoteMB(f[2]))
+		rep := c.Cmd("CREATE " + awQuoteMB(f[2]))
 		if rep.Err != nil {
 			return rep.Err
 		}
@@ -423,7 +426,7 @@ func (r *limRunner) exec(step string) error {
 		if err != nil {
 			return err
 		}
-		rep := c.Cmd("DELETE " + quoteMB(f[2]))
+		rep := c.Cmd("DELETE " + awQuoteMB(f[2]))
 		if rep.Err != nil {
 			return rep.Err
 		}
@@ -434,7 +437,7 @@ func (r *limRunner) exec(step string) error {
 		if err != nil {
 			return err
 		}
-		if rep := c.Cmd("SELECT " + quoteMB(f[2])); rep.Status != "OK" {
+		if rep := c.Cmd("SELECT " + awQuoteMB(f[2])); rep.Status != "OK" {
 			return fmt.Errorf("SELECT %s: %s %v", f[2], rep.Tagged, rep.Err)
 		}
 		_ = c.Cmd(fmt.Sprintf(`STORE 1:%s +FLAGS.SILENT (\Deleted)`, f[3]))
@@ -729,7 +732,7 @@ func runLimitsOracle(args []string) int {
 				continue
 			}
 			cause := "unknown"
-			if m := reCause.FindStringSubmatch(a); m != nil {
+			if m := awReCause.FindStringSubmatch(a); m != nil {
 				cause = m[1]
 			}
 			report(cause, fmt.Sprintf("step %q: %s | observed: %s", h.lsteps[i], a, h.lines[i]), stepIdx)
